@@ -16,6 +16,6 @@ PROFILE = dict(
     weights=dict(triple=3, faulted=0.5, pool_restart=0.2, status=1, status_filtered=3, dry_run=1.5, run=1, start=2, finish=2, sched_cancel=0.7,
                  purge=0.5, acct_flush=0.5, modify_source=0.7, delete_output=0.7, edit_spec=0.5, advance=0.5, rename=0.5, remove=0.3,
                  add=0.3),
-    p_job_ok=0.5, spec_variety=True, p_hashing=0.5, p_huge=0.01,
+    p_nested=0.1, p_job_ok=0.5, spec_variety=True, p_hashing=0.5, p_huge=0.01,
 )
 make_scenario = make({"C05"}, PROFILE, CmdScenario)
